@@ -104,13 +104,20 @@ inline G make_elem(In& in, int cls) {
 
 // pool factories -----------------------------------------------------------------------------
 // pool element `index`: 0..3 generic elements of four scale classes, 4 the exact identity,
-// 5 a one-parameter element (exp of an axis-aligned tangent)
+// 5 a one-parameter element (exp of an axis-aligned tangent), 6 near the identity, 7 near the cut locus
 template<class G>
 G* pool_make_elem(In& in, int index) {
   if (index == 4) return new G(smooth::Identity<G>(dof_of<G>()));
   if (index == 5) {
     smooth::Tangent<G> a = smooth::Tangent<G>::Zero(dof_of<G>());
     a(dof_of<G>() - 1) = static_cast<smooth::Scalar<G>>(in.sym(2.0));
+    return new G(smooth::exp<G>(a));
+  }
+  if (index == 6) return new G(smooth::exp<G>(make_tan<G>(in, 1)));  // near the identity, not exactly it
+  if (index == 7) {
+    auto a = make_tan<G>(in, 0);  // exp of a tangent whose norm is just below pi
+    const auto n = a.norm();
+    if (n > 0) a *= static_cast<smooth::Scalar<G>>((3.14159265358979323846 - 1e-9) / n);
     return new G(smooth::exp<G>(a));
   }
   return new G(make_elem<G>(in, index));
